@@ -46,6 +46,53 @@ characters: (SIZE_STRESS part 2) payload pools contain non-NFC text next to its 
            U+10FFFF; U+0400..U+043F (every UTF-8 trailing byte) rotate through the end of payload
            runs; field names that only a normalising reader confuses sit side by side; values with one
            boundary style throughout (CRLF / CR / LF), tab-only and mixed indentation, trailing tabs.
+API surface (notes/API_SURFACE.md) -- every public way a field value enters or leaves a paragraph; all
+in-domain rows are exercised in the QUICK tier on a rotating sample with the same verdicts, and mixed
+within one history (legs: C = CASE replay, W = LTS walks on live objects, T = recorded traces):
+  entry point / variant                                             exercised by / out of domain because
+  ----------------------------------------------------------------  ------------------------------------
+  value IN   d[k] = v  (Deb822.__setitem__ -> validate_input)        C W T (every class)
+             d.update([(k, v)]) / update({k: v}) / update(**{k: v})  C W T (ASSIGN_ROUTES, rotating)
+             d.setdefault(k, v) on an absent field                   C (last field) W T (new keys)
+             d.setdefault(k, v) on a present field                   no assignment happens (falls back to d[k] = v)
+             Cls({k: v, ...})  mapping constructor                   C (route ctor-map; ValueError required) W T (BUILD_KINDS)
+             Cls(Deb822Dict / other paragraph)  mapping protocol     C (route ctor-copy) W T (ctor-obj) ; re-entry ctor-self / ctor-dict
+             Cls([(k, v), ...])  sequence of pairs                   out of domain: Deb822.__init__ treats a non-mapping as LINES to
+                                                                     parse (only the private Deb822Dict(_dict=...) takes pairs)
+             Cls(text | bytes | lines | file, fields=, encoding=,    C W T: as read-back (WAYS) and as creation of the start object
+                 strict=)  parsing constructor                       (BUILD_KINDS parse-str / parse-lines), strict by keyword and
+                                                                     positionally, fields= naming every field, encoding='iso8859-1'
+             fields= naming a SUBSET                                 out of domain: the statement promises the same names, a filter
+                                                                     asks for fewer
+             d.copy() / copy.deepcopy / pickle round trip / Cls(d)   C W T (REENTRIES): the copy reads back alike, assigning to it
+                                                                     leaves the original alone; copy.copy is only READ (shallow by
+                                                                     Python's definition: it shares the storage -- see report)
+             Deb822Dict.__setitem__ / Deb822Dict(...)                out of domain: the plain mapping does not validate and cannot be
+                                                                     dumped; used only as a mapping argument of the constructors
+             values of multivalued fields (lists / dicts, or str     out of domain (D3, not validated by documentation); str values
+                 under Files, Checksums-*, SHA256 ... of Dsc,        under such keys are executed on throw-away objects as history
+                 Changes, BuildInfo, Release, PdiffIndex, Sources)   perturbation (W T)
+             d.merge_fields(k, d1[, d2]) / mergeFields               out of domain: the value assigned is computed by the library
+                                                                     (it ends in self[k] = merged, i.e. the validated entry point)
+             TagSectionWrapper / use_apt_pkg=True                    out of domain: python-apt is not installed in this image
+  subclasses Deb822, Dsc, Changes, BuildInfo, Release, PdiffIndex,   C W T (ALL_CLASSES rotate in every leg)
+             Sources, Packages, Removals
+             debian.copyright / debian.deb822.RestrictedWrapper      out of domain: wrappers with their own field rules (C17)
+  text OUT   d.dump() / str(d) / d.__unicode__()                     C W T (DUMPS, rotating; __unicode__ = __str__)
+             d.dump(fd) binary / d.dump(fd, encoding, False) /       C W T
+                 bytes(d)
+             d.dump(fd, text_mode=True)                              C W T
+             d.dump(fd, encoding='iso8859-1') + reading with         C W T when every character is Latin-1 (else UnicodeEncodeError by
+                 encoding='iso8859-1'                                documentation)
+             d.get_as_string(k), d[k], d.get, items()                projection of the paragraph after every call (atomicity)
+  read BACK  Deb822.iter_paragraphs(str | StringIO | BytesIO)        C W T (six read-backs per accepted value; TLC models them)
+             Cls.iter_paragraphs / Cls(...) of the producing class   C W T (WAYS, rotating): str, bytes, lines with / without
+                                                                     newlines, generator, StringIO, BytesIO, real text / binary file;
+                                                                     strict by keyword / positionally / omitted (Sources and Packages
+                                                                     iterate leniently by default); shared_storage=True; fields=
+             Deb822.split_gpg_and_payload / gpg_stripped_paragraph   indirectly: every read goes through them (the gpg-aware classes
+                                                                     twice); armor itself is C02's subject
+             is_single_line / isSingleLine / is_multi_line / ...     out of domain: predicates on strings, no paragraph involved
 negative controls run in every check: NoIndentRule, AllowEndLF, ValidateLFOnly, ReaderNoWsRule must
 and StrictDroppedInGpgClasses, PosStrictMissedByPrepass must make TLC report Sound violated,
 MemoMode = "value" / "keyvalue" and RejectStoresEmpty HistoryFree;
@@ -142,8 +189,36 @@ def get_class(name):
     return getattr(m, name)
 
 
-def build(clsname, pairs):
-    d = get_class(clsname)()
+WORKDIR = [os.path.join(core.VERIF, ".work")]          # real files for the file-object input forms (set by run)
+KNOWN_POS_STRICT = "C08-positional-strict-gpg-prepass"
+
+# ---- how a value ENTERS a paragraph
+ASSIGN_ROUTES = ("setitem", "update", "update-map", "update-kw", "setdefault", "ctor-map", "ctor-copy")
+BUILD_KINDS = ("assign", "ctor-map", "ctor-obj", "parse-str", "parse-lines", "update")
+
+
+def build(clsname, pairs, kind="assign"):
+    """a paragraph of class clsname holding `pairs`, created through one of the public ways"""
+    cls = get_class(clsname)
+    if kind == "ctor-map":
+        return cls(dict(pairs))
+    if kind == "ctor-obj":                                   # from another paragraph (mapping protocol)
+        from debian.deb822 import Deb822
+        src = Deb822()
+        for k, v in pairs:
+            src[k] = v
+        return cls(src)
+    if kind in ("parse-str", "parse-lines") and pairs:
+        from debian.deb822 import Deb822
+        src = Deb822()
+        for k, v in pairs:
+            src[k] = v
+        text = src.dump()
+        return cls(text if kind == "parse-str" else text.splitlines(True), strict=dict(WS_FALSE))
+    d = cls()
+    if kind == "update":
+        d.update(pairs)
+        return d
     for k, v in pairs:
         d[k] = v
     return d
@@ -154,10 +229,17 @@ def project(d):
 
 
 def assign(d, key, value, route="setitem"):
-    """returns "ok" | "ValueError" | "EXC:<type>" -- every exception is an observation"""
+    """returns "ok" | "ValueError" | "EXC:<type>" -- every exception is an observation.
+    setdefault only ASSIGNS when the key is absent (otherwise it falls back to d[key] = value)."""
     try:
         if route == "update":
             d.update([(key, value)])
+        elif route == "update-map":
+            d.update({key: value})
+        elif route == "update-kw":
+            d.update(**{key: value})
+        elif route == "setdefault" and key not in d:
+            d.setdefault(key, value)
         else:
             d[key] = value
         return "ok"
@@ -165,6 +247,62 @@ def assign(d, key, value, route="setitem"):
         return "ValueError"
     except Exception as e:                                           # noqa: BLE001
         return "EXC:" + type(e).__name__
+
+
+# ---- how a paragraph is carried over into ANOTHER object (its values leave and enter again)
+REENTRIES = ("copy", "copy.copy", "deepcopy", "pickle", "ctor-self", "ctor-dict", "parse")
+
+
+def reenter(d, how):
+    import copy
+    import pickle
+    cls = type(d)
+    if how == "copy":
+        return d.copy()
+    if how == "copy.copy":
+        return copy.copy(d)
+    if how == "deepcopy":
+        return copy.deepcopy(d)
+    if how == "pickle":
+        return pickle.loads(pickle.dumps(d))
+    if how == "ctor-self":
+        return cls(d)
+    if how == "ctor-dict":
+        return cls(dict(d.items()))
+    return cls(d.dump(), strict=dict(WS_FALSE))
+
+
+# ---- how the text LEAVES
+DUMPS = ("dump", "str", "fd-b", "fd-t", "bytes", "fd-b-enc", "dump", "fd-latin1")
+
+
+def dump_text(d, how):
+    """the paragraph as text through one of the output forms (all must denote the same text)"""
+    if how == "str":
+        return str(d)
+    if how == "bytes":
+        return bytes(d).decode("utf-8")
+    if how == "fd-b":
+        f = io.BytesIO()
+        d.dump(f)
+        return f.getvalue().decode("utf-8")
+    if how == "fd-b-enc":
+        f = io.BytesIO()
+        d.dump(f, "utf-8", False)
+        return f.getvalue().decode("utf-8")
+    if how == "fd-t":
+        f = io.StringIO()
+        d.dump(f, text_mode=True)
+        return f.getvalue()
+    if how == "fd-latin1":
+        try:
+            "".join(v for kv in d.items() for v in kv).encode("iso8859-1")
+        except UnicodeEncodeError:
+            return d.dump()
+        f = io.BytesIO()
+        d.dump(fd=f, encoding="iso8859-1")
+        return f.getvalue().decode("iso8859-1")
+    return d.dump()
 
 
 def read_back(text, form, ws_default):
@@ -188,63 +326,155 @@ def read_back(text, form, ws_default):
         return {"st": "EXC:" + type(e).__name__, "paras": []}
 
 
-ALL_CLASSES = ("Deb822", "Dsc", "Changes", "BuildInfo", "Release", "PdiffIndex")
-GPG_CLASSES = ("Dsc", "Changes", "BuildInfo")              # _gpg_multivalued: a pre-pass cuts the paragraph out
-WAY_FORMS = ("s", "y", "l", "f", "b")                      # str, bytes, text.splitlines(True), io.StringIO, io.BytesIO
-WAYS = [(route, form, pas) for route in ("ctor", "iter") for form in WAY_FORMS for pas in ("kw", "pos")]
-KNOWN_POS_STRICT = "C08-positional-strict-gpg-prepass"
+ALL_CLASSES = ("Deb822", "Dsc", "Changes", "BuildInfo", "Release", "PdiffIndex", "Sources", "Packages", "Removals")
+GPG_CLASSES = ("Dsc", "Changes", "BuildInfo", "Sources")   # _gpg_multivalued: a pre-pass cuts the paragraph out
+LENIENT_ITER = ("Sources", "Packages")                     # their iter_paragraphs defaults to the lenient setting
+# input forms: str, bytes, text.splitlines(True), text.splitlines(), generator of lines, io.StringIO,
+# io.BytesIO, real text file, real binary file
+WAY_FORMS = ("s", "y", "l", "n", "g", "f", "b", "F", "R")
+FORM_SRC = {"s": "text", "y": "text.encode()", "l": "text.splitlines(True)", "n": "text.splitlines()",
+            "g": "(l for l in text.splitlines(True))", "f": "io.StringIO(text)", "b": "io.BytesIO(text.encode())",
+            "F": "open(file, encoding='utf-8')", "R": "open(file, 'rb')"}
+# (route, form, strict by keyword / positionally, option): options are fields= naming every field,
+# shared_storage=True (documented as ignored), bytes in latin-1 with encoding=, strict omitted
+WAYS = [(route, form, pas, "") for route in ("ctor", "iter") for form in WAY_FORMS for pas in ("kw", "pos")] + [
+    ("ctor", "s", "kw", "fields"), ("ctor", "f", "pos", "fields"), ("iter", "l", "kw", "fields"), ("iter", "b", "pos", "fields"),
+    ("iter", "s", "kw", "shared"), ("iter", "f", "kw", "shared"),
+    ("ctor", "y", "kw", "latin1"), ("iter", "b", "kw", "latin1"), ("ctor", "b", "pos", "latin1"),
+    ("iter", "s", "kw", "omit"), ("iter", "f", "kw", "omit"), ("ctor", "l", "kw", "omit")]
 
 
 def way_name(clsname, way, ws_default):
-    route, form, pas = way
-    src = {"s": "text", "y": "text.encode()", "l": "text.splitlines(True)", "f": "io.StringIO(text)", "b": "io.BytesIO(text.encode())"}[form]
+    route, form, pas, opt = way
+    src = FORM_SRC[form]
     strict = "None" if ws_default else "{'whitespace-separates-paragraphs': False}"
+    enc = "'iso8859-1'" if opt == "latin1" else "'utf-8'"
+    if opt == "latin1":
+        src = src.replace("encode()", "encode('iso8859-1')")
+    fields = "keys" if opt == "fields" else "None"
+    if opt == "omit":
+        return "%s%s(%s%s)  [strict omitted]" % (clsname, "" if route == "ctor" else ".iter_paragraphs", src, "" if route == "ctor" else ", use_apt_pkg=False")
     if route == "ctor":
-        return "%s(%s, %s)" % (clsname, src, ("strict=" + strict) if pas == "kw" else "None, None, 'utf-8', " + strict)
-    return "%s.iter_paragraphs(%s, %s)" % (clsname, src, ("use_apt_pkg=False, strict=" + strict) if pas == "kw" else "None, False, False, 'utf-8', " + strict)
+        return "%s(%s, %s)" % (clsname, src, ("fields=%s, encoding=%s, strict=%s" % (fields, enc, strict)) if pas == "kw" else "%s, None, %s, %s" % (fields, enc, strict))
+    return "%s.iter_paragraphs(%s, %s)" % (clsname, src, ("fields=%s, use_apt_pkg=False, shared_storage=%s, encoding=%s, strict=%s" % (fields, opt == "shared", enc, strict))
+                                           if pas == "kw" else "%s, False, %s, %s, %s" % (fields, opt == "shared", enc, strict))
 
 
 def is_known_pos_strict(clsname, way, ws_default):
-    """the signature of the known deviation: gpg-aware class built from a list / file with strict
-    given POSITIONALLY -- the pre-pass looks for strict among the keyword arguments only"""
-    route, form, pas = way
-    return clsname in GPG_CLASSES and route == "ctor" and form in "lfb" and pas == "pos" and not ws_default
+    """the signature of the deviation repaired in /repo 2236619: gpg-aware class built from a list /
+    file with strict given POSITIONALLY"""
+    route, form, pas, opt = way
+    return clsname in GPG_CLASSES and route == "ctor" and form in "lngfbFR" and pas == "pos" and not ws_default
 
 
-def read_way(clsname, text, way, ws_default):
+def effective_default(clsname, way, ws_default):
+    """the setting a way really runs with: with strict omitted, iter_paragraphs of Sources /
+    Packages is lenient by documentation, everything else uses the default"""
+    route, form, pas, opt = way
+    if opt == "omit":
+        return not (route == "iter" and clsname in LENIENT_ITER)
+    return ws_default
+
+
+def read_way(clsname, text, way, ws_default, keys=None):
     """the dump read back by the class that produced it: [st, paras] like read_back (a constructor
     gives one object = one key list)"""
-    route, form, pas = way
+    import tempfile
+    route, form, pas, opt = way
     cls = get_class(clsname)
-    src = {"s": lambda: text, "y": lambda: text.encode("utf-8"), "l": lambda: text.splitlines(True),
-           "f": lambda: io.StringIO(text), "b": lambda: io.BytesIO(text.encode("utf-8"))}[form]()
-    strict = None if ws_default else dict(WS_FALSE)
+    enc = "utf-8"
+    if opt == "latin1":
+        try:
+            text.encode("iso8859-1")
+            enc = "iso8859-1"
+        except UnicodeEncodeError:
+            pass
+    tmp = None
     try:
+        if form == "s":
+            src = text
+        elif form == "y":
+            src = text.encode(enc)
+        elif form == "l":
+            src = text.splitlines(True)
+        elif form == "n":
+            src = text.splitlines()
+        elif form == "g":
+            src = (ln for ln in text.splitlines(True))
+        elif form == "f":
+            src = io.StringIO(text)
+        elif form == "b":
+            src = io.BytesIO(text.encode(enc))
+        else:
+            tmp = tempfile.TemporaryFile(mode="w+b", dir=WORKDIR[0])
+            tmp.write(text.encode("utf-8"))
+            tmp.seek(0)
+            src = tmp if form == "R" else io.TextIOWrapper(tmp, encoding="utf-8", newline="\n")
+        strict = None if ws_default else dict(WS_FALSE)
+        fields = list(keys) if (opt == "fields" and keys is not None) else None
         with warnings.catch_warnings():
             warnings.simplefilter("ignore")
             if route == "ctor":
-                obj = cls(src, strict=strict) if pas == "kw" else cls(src, None, None, "utf-8", strict)
+                if opt == "omit":
+                    obj = cls(src)
+                elif pas == "kw":
+                    obj = cls(src, fields=fields, encoding=enc, strict=strict)
+                else:
+                    obj = cls(src, fields, None, enc, strict)
                 return {"st": "ok", "paras": [list(obj.keys())]}
-            if pas == "kw":
-                it = cls.iter_paragraphs(src, use_apt_pkg=False, strict=strict)
+            if opt == "omit":
+                it = cls.iter_paragraphs(src, use_apt_pkg=False)
+            elif pas == "kw":
+                it = cls.iter_paragraphs(src, fields=fields, use_apt_pkg=False, shared_storage=(opt == "shared"), encoding=enc, strict=strict)
             else:
-                it = cls.iter_paragraphs(src, None, False, False, "utf-8", strict)
+                it = cls.iter_paragraphs(src, fields, False, opt == "shared", enc, strict)
             return {"st": "ok", "paras": [list(p.keys()) for p in it]}
     except Exception as e:                                           # noqa: BLE001
         return {"st": "EXC:" + type(e).__name__, "paras": []}
+    finally:
+        if tmp is not None:
+            try:
+                tmp.close()
+            except Exception:                                        # noqa: BLE001
+                pass
 
 
 def pick_ways(sel, n):
-    """n of the 20 ways, rotating with `sel` so that all of them come up regularly"""
-    return [WAYS[(sel * 7 + i * 9) % len(WAYS)] for i in range(n)]
+    """n of the ways, rotating with `sel` so that all of them come up regularly"""
+    return [WAYS[(sel * 7 + i * 11) % len(WAYS)] for i in range(n)]
 
 
-def read_all(d):
-    """dump + the six read-backs; a failing dump is an observation as well"""
+def judge_ways(clsname, text, keys, blank, sel, n, known=None):
+    """read `text` back through n rotating ways of the producing class; returns (message or None):
+    lenient setting for every accepted value, default setting when no continuation line is blank"""
+    one = {"st": "ok", "paras": [keys]}
+    for way in pick_ways(sel, n):
+        for ws_default in (False, True):
+            if way[3] == "omit":
+                if ws_default:
+                    continue
+                eff_default = effective_default(clsname, way, ws_default)
+            else:
+                eff_default = ws_default
+            if eff_default and blank:
+                continue                                             # not decided by the statement
+            got = read_way(clsname, text, way, ws_default, keys)
+            if got != one:
+                msg = "read back with %s gives %s" % (way_name(clsname, way, ws_default), _rbshow(got))
+                if blank and known is not None and is_known_pos_strict(clsname, way, ws_default):
+                    known.append(msg)
+                    continue
+                return msg
+    return None
+
+
+def read_all(d, how="dump"):
+    """text through one of the output forms + the six Deb822.iter_paragraphs read-backs; a failing
+    dump is an observation as well"""
     try:
-        text = d.dump()
+        text = dump_text(d, how)
     except Exception as e:                                           # noqa: BLE001
-        bad = {"st": "EXC(dump):" + type(e).__name__, "paras": []}
+        bad = {"st": "EXC(%s):%s" % (how, type(e).__name__), "paras": []}
         return None, {n: bad for n in RBNAMES}
     rb = {}
     for f in FORMS:
@@ -402,22 +632,48 @@ def short(s, n=70):
 
 def check_case(case, clsname, conc, route="setitem", stats=None, wsel=0, known=None, nways=2):
     """replay one CASE line; returns (message or None, [drift notes]).  Expected values -- cls, blank,
-    wt -- come from TLC; this function only drives the real class and compares.  `known` collects
-    the divergences that carry the signature of the known deviation (judged by the caller)."""
+    wt -- come from TLC; this function only drives the real class and compares.
+    The entry points rotate with `wsel`: how the start paragraph is created (BUILD_KINDS), how the
+    value enters (`route`, ASSIGN_ROUTES), how the text leaves (DUMPS), whether the paragraph is
+    first carried over into another object (REENTRIES), how it is read back (WAYS); the verdicts
+    are the same for all of them."""
     v = conc.value(case["v"])
     cls = case["cls"]
     keys = conc.keys
     idx = conc.idx
     start = [[k, n] for k, n in zip(keys, conc.nb)]
+    stored = [[k, (v if i == idx else n)] for i, (k, n) in enumerate(zip(keys, conc.nb))]
     ksh = show(keys) if len(keys) <= 4 else "%d fields" % len(keys)
-    where = "%s %s[%s] = %s (field %d of %s%s)" % (clsname, "update" if route == "update" else "d", short(keys[idx], 40), short(v),
-                                                  idx + 1, ksh, ", size-stressed: " + "+".join(conc.dims) if conc.dims else "")
+    bkind = BUILD_KINDS[wsel % len(BUILD_KINDS)] if wsel % 3 == 0 else "assign"
+    how = {"setitem": "d[%s] = %s", "update": "d.update([(%s, %s)])", "update-map": "d.update({%s: %s})", "update-kw": "d.update(**{%s: %s})",
+           "setdefault": "d[%s] = %s", "ctor-map": "%s({..., %%s: %%s, ...})" % clsname, "ctor-copy": "%s(Deb822 holding %%s: %%s)" % clsname}[route]
+    where = "%s %s (field %d of %s%s%s)" % (clsname, how % (short(keys[idx], 40), short(v)), idx + 1, ksh,
+                                          ", size-stressed: " + "+".join(conc.dims) if conc.dims else "",
+                                          ", start paragraph via " + bkind if bkind != "assign" else "")
     drift = []
-    try:
-        d = build(clsname, start)
-    except Exception as e:                                           # noqa: BLE001
-        return "%s: building the start paragraph raised %s" % (where, type(e).__name__), drift
-    res = assign(d, keys[idx], v, route)
+    if route in ("ctor-map", "ctor-copy"):
+        # the value enters through the constructor, together with its neighbours
+        d = None
+        try:
+            if route == "ctor-map":
+                d = get_class(clsname)(dict(stored))
+            else:
+                from debian.deb822 import Deb822Dict
+                d = get_class(clsname)(Deb822Dict(stored))           # (Deb822Dict does not validate)
+            res = "ok"
+        except ValueError:
+            res = "ValueError"
+        except Exception as e:                                       # noqa: BLE001
+            res = "EXC:" + type(e).__name__
+    else:
+        if route == "setdefault" and idx == len(keys) - 1:
+            start = start[:-1]                                       # setdefault assigns only when the field is absent
+            where = where.replace("d[", "d.setdefault[absent] d[", 1)
+        try:
+            d = build(clsname, start, bkind)
+        except Exception as e:                                       # noqa: BLE001
+            return "%s: building the start paragraph raised %s" % (where, type(e).__name__), drift
+        res = assign(d, keys[idx], v, route)
     if stats is not None:
         stats[(cls, res)] = stats.get((cls, res), 0) + 1
     if res.startswith("EXC:"):
@@ -428,6 +684,8 @@ def check_case(case, clsname, conc, route="setitem", stats=None, wsel=0, known=N
         return "%s was accepted; the value ends in a newline / has an empty or unindented continuation line (model: ValueError)" % where, drift
     if (res == "ok") != case["acc"]:
         drift.append("acceptance of %s (class %s) differs from the transcription of validate_input" % (short(v), cls))
+    if d is None:
+        return None, drift                                           # rejected by the constructor: nothing was built
     try:
         items = project(d)
     except Exception as e:                                           # noqa: BLE001
@@ -436,12 +694,33 @@ def check_case(case, clsname, conc, route="setitem", stats=None, wsel=0, known=N
         if items != start:
             return "%s raised ValueError but the paragraph changed: %s" % (where, short(show(items), 200)), drift
         return None, drift
-    stored = [[k, (v if i == idx else n)] for i, (k, n) in enumerate(zip(keys, conc.nb))]
     if items != stored:
         drift.append("%s accepted but items() differs from the stored value" % where)
-    text, rb = read_all(d)
+    if [kv[0] for kv in items] != keys:
+        return "%s accepted; the paragraph now has the field names %s" % (where, short(show([kv[0] for kv in items]), 200)), drift
+    # carried over into another object through a rotating public way; the original must not change
+    if wsel % 4 == 1:
+        rh = REENTRIES[(wsel // 4) % len(REENTRIES)]
+        try:
+            d2 = reenter(d, rh)
+            k2 = list(d2.keys())
+        except Exception as e:                                       # noqa: BLE001
+            return "%s accepted; %s of the paragraph raised %s" % (where, rh, type(e).__name__), drift
+        if k2 != keys:
+            return "%s accepted; its %s has the field names %s, expected %s" % (where, rh, short(show(k2), 200), ksh), drift
+        if rh != "copy.copy":        # (copy.copy is a SHALLOW copy by Python's definition: it shares the storage)
+            res2 = assign(d2, keys[(idx + 1) % len(keys)], "y", "setitem")
+            if res2 != "ok" or project(d) != items:
+                return "%s accepted; assigning to its %s: %s, the original paragraph %s" % (where, rh, res2, "changed" if project(d) != items else "is intact"), drift
+            assign(d2, keys[(idx + 1) % len(keys)], conc.nb[(idx + 1) % len(keys)], "setitem")
+        where += " [read back from its %s]" % rh
+        d = d2
+    dh = DUMPS[wsel % len(DUMPS)]
+    text, rb = read_all(d, dh)
+    if dh != "dump":
+        where += " [text via %s]" % dh
     one = {"st": "ok", "paras": [keys]}                      # = OneParagraph(q): one paragraph, same field names
-    canonical3 = len(keys) == 3 and len(case["keys"]) == 3 and not conc.dims
+    canonical3 = len(keys) == 3 and len(case["keys"]) == 3 and not conc.dims and "[read back from its" not in where
     kmap = {tuple(k): keys[i] for i, k in enumerate(case["keys"])} if canonical3 else {}
     for f in FORMS:
         got = rb[f + "F"]
@@ -458,23 +737,17 @@ def check_case(case, clsname, conc, route="setitem", stats=None, wsel=0, known=N
             exp = {"st": w["st"], "paras": [[kmap.get(tuple(k), txt(k)) for k in p] for p in w["paras"]]}
             if got != exp and all(tuple(k) in kmap for p in w["paras"] for k in p):
                 drift.append("%s: default-setting read-back (%s) %s, reader model %s" % (where, _formname(f), _rbshow(got), _rbshow(exp)))
-    # ... and through the ways the producing class itself offers (constructor / iter_paragraphs,
-    # str / bytes / list / StringIO / BytesIO, strict by keyword / positionally), rotating
+    # ... and through the ways the producing class itself offers, rotating
     if len(text or "") >= 20000:
         nways = min(nways, 1)
-    for way in pick_ways(wsel, nways):
-        for ws_default in (False, True):
-            if ws_default and case["blank"]:
-                continue                                             # not decided by the statement
-            got = read_way(clsname, text, way, ws_default)
-            if got != one:
-                msg = ("%s accepted; dump %s read back with %s gives %s, expected one paragraph with keys %s"
-                       % (where, short(text or ""), way_name(clsname, way, ws_default), _rbshow(got), ksh))
-                if case["blank"] and is_known_pos_strict(clsname, way, ws_default) and known is not None:
-                    known.append(({"kind": "case", "case": case, "cls": clsname, "conc": conc.to_json(), "route": route,
-                                   "wsel": wsel, "known": KNOWN_POS_STRICT}, msg))
-                    continue
-                return msg, drift
+    kn = [] if known is not None else None
+    msg = judge_ways(clsname, text, keys, case["blank"], wsel, nways, kn)
+    if kn:
+        for m in kn:
+            known.append(({"kind": "case", "case": case, "cls": clsname, "conc": conc.to_json(), "route": route,
+                           "wsel": wsel, "known": KNOWN_POS_STRICT}, "%s accepted; dump %s %s, expected one paragraph with keys %s" % (where, short(text or ""), m, ksh)))
+    if msg:
+        return "%s accepted; dump %s %s, expected one paragraph with keys %s" % (where, short(text or ""), msg, ksh), drift
     return None, drift
 
 
@@ -504,16 +777,18 @@ def replay_chunk(payload):
             # rotating extras: other class / other concretization / update() route
             k = idx % 6
             extra_pos = 1 + (idx // 6) % 3
-            xcls = ("Dsc", "Changes", "BuildInfo", "Release", "PdiffIndex", "Deb822")[k]
-            jobs.append((xcls, Conc(v, extra_pos) if k == 0 else Conc.random(rng, v, extra_pos), "update" if k == 5 else "setitem"))
+            xcls = ALL_CLASSES[1 + (idx % 8)]                                 # every class but Deb822, in turn
+            xroute = ASSIGN_ROUTES[(idx // 8) % len(ASSIGN_ROUTES)]           # ... through every entry point, in turn
+            jobs.append((xcls, Conc(v, extra_pos) if k == 0 else Conc.random(rng, v, extra_pos), xroute))
             if not quick:
-                jobs.append((ALL_CLASSES[(idx // 6) % 6], Conc.random(rng, v, 1 + (idx // 2) % 3), "setitem"))
+                jobs.append((ALL_CLASSES[(idx // 6) % len(ALL_CLASSES)], Conc.random(rng, v, 1 + (idx // 2) % 3),
+                             ASSIGN_ROUTES[(idx // 3) % len(ASSIGN_ROUTES)]))
             # every k-th case also gets a size-stressed concretization
             if idx % STRESS_EVERY[tier] == 0 and len(v) >= 1:
                 sc = Conc.stress(rng, c, 1 + (idx // 8) % 3, allow_big=big_left > 0)
                 if (sc.rep and sc.rep[2] >= 1000) or any(n >= 65535 for _, n in sc.xs) or len(sc.keys) >= 1000:
                     big_left -= 1
-                jobs.append((ALL_CLASSES[(idx // 8) % 6], sc, "setitem"))
+                jobs.append((ALL_CLASSES[(idx // 8) % len(ALL_CLASSES)], sc, ASSIGN_ROUTES[(idx // 16) % len(ASSIGN_ROUTES)]))
                 for dname in sc.dims:
                     out["stress"][dname] = out["stress"].get(dname, 0) + 1
             for jn, (clsname, conc, route) in enumerate(jobs):
@@ -550,8 +825,8 @@ def _rbshow(r):
 # ------------------------------------------------------------------ (a') LTS walks: histories on live objects
 
 MODEL_KEYS = {(65,): "A", (78,): "N", (70, 105, 108, 101, 115): "F"}
-S_CLASSES = ("Dsc", "Changes")
-D_CLASSES = ("Deb822", "Deb822", "Release", "BuildInfo", "PdiffIndex")
+S_CLASSES = ("Dsc", "Changes", "Sources")
+D_CLASSES = ("Deb822", "Deb822", "Release", "BuildInfo", "PdiffIndex", "Packages", "Removals")
 
 
 class HistConc:
@@ -563,6 +838,10 @@ class HistConc:
     def __init__(self, rng, values, stress):
         # "D" of the model: a class in which Files is an ordinary, validated field
         self.classes = [rng.choice(D_CLASSES), rng.choice(S_CLASSES), rng.choice(S_CLASSES)]
+        # entry points, mixed within the history: how each object is created, which assignment
+        # routes / dump forms / copies come up at which step
+        self.builds = [rng.choice(BUILD_KINDS) for _ in self.classes]
+        self.rsel = rng.randrange(1000)
         taken = set()
         klen = heavy(rng, KEY_LENS) if (stress and rng.random() < 0.3) else 0
         names = rng.sample(KEY_POOL, 2)
@@ -592,13 +871,14 @@ class HistConc:
         return [list(f) for f in self.pad] + [[self.key(f["k"]), self.valmap[tuple(f["v"])]] for f in model_para]
 
     def to_json(self):
-        return {"classes": self.classes, "keymap": self.keymap, "pad": self.pad,
+        return {"classes": self.classes, "keymap": self.keymap, "pad": self.pad, "builds": self.builds, "rsel": self.rsel,
                 "valmap": [[list(k), v] for k, v in self.valmap.items()]}
 
     @classmethod
     def from_json(cls, j):
         c = cls.__new__(cls)
         c.classes, c.keymap, c.pad = list(j["classes"]), dict(j["keymap"]), [list(f) for f in j["pad"]]
+        c.builds, c.rsel = list(j.get("builds", ["assign"] * 3)), j.get("rsel", 0)
         c.valmap = {tuple(k): v for k, v in j["valmap"]}
         return c
 
@@ -630,27 +910,46 @@ def gen_walk(rng, g, n):
     return path
 
 
+WALK_ROUTES = ("setitem", "update", "setdefault", "update-map", "setitem", "update-kw", "setdefault")
+
+
 def run_walk(path, init_state, hc, full_every=6):
     """replay one walk on three live objects (+ throw-away objects for the multivalued-key steps);
     returns (message or None, steps executed).  After EVERY step: result as the model says, the
     paragraph of every live object as the model says (atomicity of rejections, no aliasing between
     paragraphs, nothing left behind); after an accepted step the read-back verdicts of that object,
-    every `full_every` steps and at the end those of all objects."""
+    every `full_every` steps and at the end those of all objects.  Entry points are mixed: the
+    objects are created through different constructors, values enter through d[k] = v / update /
+    setdefault, now and then a live object is replaced by its copy / deepcopy / pickle / mapping
+    copy (the original stays alive and must not change), the text leaves through dump / str / fd."""
     objs = []
     try:
         for o, clsname in enumerate(hc.classes):
-            objs.append(build(clsname, hc.para(init_state[o])))
+            objs.append(build(clsname, hc.para(init_state[o]), hc.builds[o]))
     except Exception as e:                                           # noqa: BLE001
-        return "building the start paragraphs raised %s" % type(e).__name__, 0
+        return "building the start paragraphs (%s) raised %s" % (hc.builds, type(e).__name__), 0
     prev_items = [project(d) for d in objs]
     for o in range(len(objs)):
         if prev_items[o] != hc.para(init_state[o]):
-            return "start paragraph %d reads %s" % (o + 1, short(show(prev_items[o]), 200)), 0
+            return "start paragraph %d (created via %s) reads %s" % (o + 1, hc.builds[o], short(show(prev_items[o]), 200)), 0
+    ghosts = []                                                      # (step, how, original object, its items)
     n = 0
     for i, e in enumerate(path):
         n += 1
         o, k, v = e["args"]
         val = hc.valmap[tuple(v)]
+        if (i + hc.rsel) % 5 == 2:                                   # carry a live object over into a new one
+            q = (i + hc.rsel) % len(objs)
+            rh = REENTRIES[((i + hc.rsel) // 5) % len(REENTRIES)]
+            try:
+                new = reenter(objs[q], rh)
+                if project(new) != prev_items[q]:
+                    return "step %d: %s of object %d reads %s, the original %s" % (i + 1, rh, q + 1, short(show(project(new)), 160), short(show(prev_items[q]), 160)), n
+            except Exception as ex:                                  # noqa: BLE001
+                return "step %d: %s of object %d (%s) raised %s" % (i + 1, rh, q + 1, hc.classes[q], type(ex).__name__), n
+            if rh != "copy.copy":    # (a shallow copy shares the storage by Python's definition: it is only read)
+                ghosts.append((i + 1, rh, objs[q], prev_items[q]))
+                objs[q] = new
         if e["op"] == "scratch":
             clsname = hc.classes[1 + i % 2]
             where = "step %d: %s()[%r] = %s on a throw-away object (multivalued key)" % (i + 1, clsname, hc.key(k), short(val))
@@ -662,8 +961,9 @@ def run_walk(path, init_state, hc, full_every=6):
             target = None
         else:
             target = o - 1
-            where = "step %d: object %d (%s) [%s] = %s" % (i + 1, o, hc.classes[target], short(hc.key(k), 40), short(val))
-            res = assign(objs[target], hc.key(k), val, "update" if i % 7 == 3 else "setitem")
+            route = WALK_ROUTES[(i + hc.rsel) % len(WALK_ROUTES)]
+            where = "step %d: object %d (%s) %s [%s] = %s" % (i + 1, o, hc.classes[target], route, short(hc.key(k), 40), short(val))
+            res = assign(objs[target], hc.key(k), val, route)
             if res != e["res"]:
                 return "%s: outcome %s, the model says %s (history: %d earlier steps, previous step %s)" % (
                     where, res, e["res"], i, _stepshow(path[i - 1], hc) if i else "none"), n
@@ -686,20 +986,25 @@ def run_walk(path, init_state, hc, full_every=6):
         if (i + 1) % full_every == 0 or i == len(path) - 1:
             todo = list(range(len(objs)))
         for q in todo:
-            text, rb = read_all(objs[q])
+            dh = DUMPS[(i + q + hc.rsel) % len(DUMPS)]
+            text, rb = read_all(objs[q], dh)
             keys = [kv[0] for kv in prev_items[q]]
             one = {"st": "ok", "paras": [keys]}
             for f in FORMS:
                 for ws in "FT":                                      # model values have no blank continuation line
                     if rb[f + ws] != one:
-                        return "%s: object %d dumped %s reads back (%s input, %s) as %s, expected one paragraph with its %d field names" % (
-                            where, q + 1, short(text or ""), _formname(f), "setting False" if ws == "F" else "default setting", _rbshow(rb[f + ws]), len(keys)), n
-            for way in pick_ways(i * 3 + q, 2):                      # ... and through its own class
-                for ws_default in (False, True):
-                    got = read_way(hc.classes[q], text, way, ws_default)
-                    if got != one:
-                        return "%s: object %d dumped %s read back with %s gives %s, expected one paragraph with its %d field names" % (
-                            where, q + 1, short(text or ""), way_name(hc.classes[q], way, ws_default), _rbshow(got), len(keys)), n
+                        return "%s: object %d, text via %s %s reads back (%s input, %s) as %s, expected one paragraph with its %d field names" % (
+                            where, q + 1, dh, short(text or ""), _formname(f), "setting False" if ws == "F" else "default setting", _rbshow(rb[f + ws]), len(keys)), n
+            msg = judge_ways(hc.classes[q], text, keys, False, i * 3 + q + hc.rsel, 2)     # ... and through its own class
+            if msg:
+                return "%s: object %d, text via %s %s %s, expected one paragraph with its %d field names" % (where, q + 1, dh, short(text or ""), msg, len(keys)), n
+    for step, rh, d, items in ghosts:                                # the originals of the copies are untouched
+        try:
+            now = project(d)
+        except Exception as ex:                                      # noqa: BLE001
+            return "the original of the %s made at step %d cannot be read any more: %s" % (rh, step, type(ex).__name__), n
+        if now != items:
+            return "the original of the %s made at step %d changed afterwards: %s -> %s" % (rh, step, short(show(items), 160), short(show(now), 160)), n
     return None, n
 
 
@@ -852,7 +1157,8 @@ MULTI = {"Deb822": (), "Dsc": ("files", "checksums-sha1", "checksums-sha256", "c
          "Changes": ("files", "checksums-sha1", "checksums-sha256", "checksums-sha512"),
          "BuildInfo": ("checksums-md5", "checksums-sha1", "checksums-sha256", "checksums-sha512"),
          "Release": ("md5sum", "sha1", "sha256", "sha512"),
-         "PdiffIndex": ("sha1-current", "sha1-history", "sha1-patches", "sha256-current", "sha256-history")}
+         "PdiffIndex": ("sha1-current", "sha1-history", "sha1-patches", "sha256-current", "sha256-history"),
+         "Sources": ("files", "checksums-sha1", "checksums-sha256", "checksums-sha512"), "Packages": (), "Removals": ()}
 SPELL = {"files": "Files", "checksums-sha1": "Checksums-Sha1", "checksums-sha256": "Checksums-Sha256",
          "checksums-sha512": "Checksums-Sha512", "checksums-md5": "Checksums-Md5", "md5sum": "MD5Sum",
          "sha1": "SHA1", "sha256": "SHA256", "sha512": "SHA512", "sha1-current": "SHA1-Current",
@@ -887,7 +1193,9 @@ def record_trace(rng, nev, script=None):
             starts.append([[k, simple_value(rng)] for k in keys])
     else:
         classes, starts = script["classes"], script["starts"]
-    objs = [build(c, st) for c, st in zip(classes, starts)]
+    builds = script["builds"] if script is not None and "builds" in script else (
+        [rng.choice(BUILD_KINDS) for _ in classes] if script is None else ["assign"] * len(classes))
+    objs = [build(c, st, bk) for c, st, bk in zip(classes, starts, builds)]
     init = _items_all(objs)
     events, calls = [], []
     newkeys = 0
@@ -905,7 +1213,7 @@ def record_trace(rng, nev, script=None):
                 else:
                     v = gen_value(rng)
                 if obj == 0:
-                    clsname = rng.choice(TRACE_CLASSES[1:])
+                    clsname = rng.choice([c for c in TRACE_CLASSES if MULTI[c]])
                     key = SPELL[rng.choice(MULTI[clsname])]                    # the usual spelling: the same
                 else:                                                          # name is used on other classes
                     clsname = classes[obj - 1]
@@ -918,9 +1226,17 @@ def record_trace(rng, nev, script=None):
                         key = rng.choice(present)
                         if rng.random() < 0.2 and key.isascii():               # (only ASCII case folding is assumed)
                             key = rng.choice([key.lower(), key.upper()])       # another spelling of the same field
-            route = "update" if rng.random() < 0.15 else "setitem"
+            route = rng.choice(("setitem", "setitem", "update", "update-map", "update-kw", "setdefault"))
+            # (not "parse": re-parsing trims the first line of a value -- C02's subject, not C08's)
+            carry = rng.choice(REENTRIES[:-1]) if (obj != 0 and rng.random() < 0.12) else ""
         else:
-            obj, clsname, key, v, route = script["calls"][i]
+            obj, clsname, key, v, route = script["calls"][i][:5]
+            carry = script["calls"][i][5] if len(script["calls"][i]) > 5 else ""
+        if carry:                                 # the live object is replaced by its copy / pickle / ...
+            try:
+                objs[obj - 1] = reenter(objs[obj - 1], carry)
+            except Exception:                                        # noqa: BLE001  shows up in the items below
+                pass
         if obj != 0 and key not in objs[obj - 1]:
             newkeys += 1
         if obj == 0:
@@ -932,22 +1248,22 @@ def record_trace(rng, nev, script=None):
             res = assign(objs[obj - 1], key, v, route)
         items = _items_all(objs)
         if obj != 0 and res == "ok":
-            text, rb = read_all(objs[obj - 1])
-            # one of the ways of the object's own class, rotating (the way with the known deviation
-            # is judged in the CASE replay only)
-            way = [w for w in pick_ways(i + len(v), 3) if not is_known_pos_strict(clsname, w, False)][0]
+            text, rb = read_all(objs[obj - 1], DUMPS[(i + len(v)) % len(DUMPS)])
+            # one of the ways of the object's own class, rotating
+            way = [w for w in pick_ways(i + len(v), 4) if w[3] != "omit"][0]
+            wkeys = [k for k in objs[obj - 1]]
             for ws_default, name in ((False, "wF"), (True, "wT")):
-                rb[name] = read_way(clsname, text, way, ws_default) if text is not None else rb["sF"]
+                rb[name] = read_way(clsname, text, way, ws_default, wkeys) if text is not None else rb["sF"]
             rbj = enc_rb(rb)
         else:
             rbj = NO_RB
         used.append(v)
         last = (obj, clsname, key, v, res)
-        calls.append([obj, clsname, key, v, route])
+        calls.append([obj, clsname, key, v, route, carry])
         events.append({"obj": obj, "cls": clsname, "key": cp(key), "v": cp(v), "acc": res == "ok", "res": res,
                        "items": [enc_para(p) for p in items], "rb": rbj})
     return {"objs": [{"cls": c, "para": enc_para(p)} for c, p in zip(classes, init)], "events": events, "newkeys": newkeys,
-            "script": {"classes": classes, "starts": starts, "calls": calls}}
+            "script": {"classes": classes, "starts": starts, "builds": builds, "calls": calls}}
 
 
 def slim(t):
@@ -1140,6 +1456,7 @@ def run(ctx):
     t_ph = time.time()
     # worker processes for the replay legs are forked now, before any thread exists
     import multiprocessing
+    WORKDIR[0] = ctx.work
     pool = multiprocessing.get_context("fork").Pool(min(4 if quick else 6, core.NCPU))
 
     # 1. (b) code -> spec: assignment histories are recorded first; TLC validates them on the
@@ -1350,6 +1667,7 @@ def _evshow(t, i):
 
 
 def replay(ctx, case):
+    WORKDIR[0] = ctx.work
     if case["kind"] == "case":
         conc = Conc.from_json(case["conc"])
         known = []
